@@ -78,7 +78,10 @@ def sdump(o, depth=0) -> str:
     if depth > 300:
         return "<deep>"
     if isinstance(o, ast.AST):
+        # ALL instance attributes, not only _fields: core._match_template_vars matches on vars(template), so an
+        # attribute a rule hangs on a cached template changes what that template matches
         names = list(getattr(o, "_fields", ())) + list(getattr(o, "_attributes", ()))
+        names += sorted(k for k in vars(o) if k not in names)
         parts = [f"{n}={sdump(getattr(o, n), depth + 1)}" for n in names if hasattr(o, n)]
         return f"{type(o).__name__}({', '.join(parts)})"
     if isinstance(o, tuple) and hasattr(o, "_fields"):
@@ -92,6 +95,16 @@ def sdump(o, depth=0) -> str:
     if isinstance(o, type):
         return f"<type {o.__module__}.{o.__qualname__}>"
     return repr(o)
+
+
+def tree_dump(tree) -> str:
+    """ast.dump with positions + the instance attributes a rule may have hung on the nodes (a fresh parse has none)."""
+    extra = []
+    for i, n in enumerate(ast.walk(tree)):
+        ks = sorted(k for k in vars(n) if k not in n._fields and k not in n._attributes)
+        if ks:
+            extra.append(f"{i}:{type(n).__name__}:{','.join(ks)}")
+    return ast.dump(tree, include_attributes=True) + ("" if not extra else " EXTRA-ATTRIBUTES " + " ".join(extra))
 
 
 def canon(x):
@@ -165,7 +178,7 @@ class Recorder:
                 obj = self.entries[key][0]
             else:
                 self.misses += 1
-                obj = self.orig.__wrapped__(*a, **k)      # an exception is not cached (as lru_cache)
+                obj = getattr(self.orig, "__wrapped__", self.orig)(*a, **k)   # an exception is not cached (as lru_cache)
                 self.entries[key] = (obj, a, k)
         else:
             obj = self.orig(*a, **k)
@@ -176,7 +189,8 @@ class Recorder:
     def cache_clear(self):
         self.entries.clear()
         self.window.clear()
-        self.orig.cache_clear()
+        if hasattr(self.orig, "cache_clear"):
+            self.orig.cache_clear()
 
     def cache_info(self):
         return self.orig.cache_info()
@@ -207,9 +221,9 @@ class Caches:
         if mk in self.fresh_memo:
             return self.fresh_memo[mk]
         if rec.kind == "parse":
-            d = ast.dump(ast.parse(*a, **k), include_attributes=True)
+            d = tree_dump(ast.parse(*a, **k))
         elif rec.kind == "template":
-            d = sdump(rec.orig.__wrapped__(*a, **k))
+            d = sdump(getattr(rec.orig, "__wrapped__", rec.orig)(*a, **k))
         else:
             # recompute without any cache underneath
             core, tracing = self.mods["core"], self.mods["tracing"]
@@ -233,7 +247,7 @@ class Caches:
                 obj, a, k = rec.entries[key]
                 self.checked += 1
                 try:
-                    got = ast.dump(obj, include_attributes=True) if rec.kind == "parse" else sdump(obj)
+                    got = tree_dump(obj) if rec.kind == "parse" else sdump(obj)
                     want = self._fresh(rec, key, a, k)
                 except Exception as e:  # noqa
                     got, want = f"<dump failed: {type(e).__name__}: {e}>", ""
@@ -354,7 +368,21 @@ def job_mechanics(job) -> list:
     return out
 
 
-JOBS = {"history": job_history, "mechanics": job_mechanics}      # other harness modules may register job kinds
+def job_harvest(job):
+    """The harvest runs the repo's example scripts; in a fork with a time limit, so that a rule that hangs on its own
+    example cannot hang the check."""
+    return c05_corpus.harvest(MODS)
+
+
+def harvest_isolated(farm, timeout=150):
+    st, *rest = farm._one({"kind": "harvest", "timeout": timeout})
+    if st != "ok":
+        raise RuntimeError(f"harvest of the repository's examples failed (a rule hangs or crashes the interpreter on "
+                           f"its own example?): {rest[0]}")
+    return rest[0]
+
+
+JOBS = {"history": job_history, "mechanics": job_mechanics, "harvest": job_harvest}      # other harness modules may register job kinds
 
 
 def run_job(job):
@@ -707,7 +735,7 @@ def _check(run, wd, mods, core, farm, t_start):
 
     # ---- 2. the premise of T05.1 on the real rules
     t0 = time.time()
-    pool, hstats = c05_corpus.harvest(mods)
+    pool, hstats = harvest_isolated(farm)
     usable = []
     for r in pool:
         try:
